@@ -345,6 +345,10 @@ bool exec_str_a(Ctx &c, const Op &op) {
         // (s = s / s.set(s) is an assignment like any other: the value must be the same afterwards, the storage may legitimately be new)
         as_target(dst); if (!(self && A.kind == SK_STR_COPY)) note_mutating(c, dst);
         arg_roles(c, A, dst);
+        // one assignment in four is bracketed by the observations a hashed container makes: the target is hashed before (whatever an implementation
+        // may remember about the old value is remembered now) and must hash like its new value afterwards
+        const bool hashed = (op.b & 3) == 0 && dst->st == M_DEFINITE;
+        if (hashed) run_quiet([&] { simrt::SutScope sc; (void)ST::hash()(*dst->p()); (void)ST::hash_i()(*dst->p()); });
         ExcKind ex = run_sut(c, op, [&] {
             ST::string &d = *dst->p();
             if (variant == 1) {
@@ -364,6 +368,11 @@ bool exec_str_a(Ctx &c, const Op &op) {
                 if (A.wf) dst->model = A.expect; else dst->st = M_ADOPT;
                 dst->moved_from = false;
                 arg_after_success(c, A, dst);
+                if (hashed && A.wf) {
+                    bool same = true;
+                    run_quiet([&] { simrt::SutScope sc; ST::string fresh = ST::string::from_validated(A.expect.data(), A.expect.size()); same = ST::hash()(*dst->p()) == ST::hash()(fresh) && ST::hash_i()(*dst->p()) == ST::hash_i()(fresh); });
+                    if (!same) set_viol(c, "value_mismatch", "after the assignment the target does not hash like a string freshly built from its new value");
+                }
             }
         }
         return true;
